@@ -348,8 +348,8 @@ class World:
         return {loc: get_raw(self.data, loc) for loc in LOCS}
 
 
-def history_script(ops, tail=""):
-    """standalone reproduction of a history on the real library"""
+def history_script(ops, tail="", after_setup=""):
+    """standalone reproduction of a history on the real library (after_setup: source run right after the manager is created)"""
     lines = ["import xdeps, operator",
              "class Obj:\n    def __init__(self, **kw): self.__dict__.update(kw)\n"
              "    def __eq__(self, o): return type(o).__name__ == 'Obj' and self.__dict__ == o.__dict__\n"
@@ -361,6 +361,8 @@ def history_script(ops, tail=""):
                      "f = m.ref(H, 'f')")
     src = {"tot": "f.tot({0})", "dbl": "2 * {0}", "inc": "{0} + 1", "neg": "-{0}", "sum": "{0} + {1}", "mix": "{0} * {1} - 1",
            "rsub": "10 - {0}", "div": "{0} / ({1} + 100)", "same": "{0}"}
+    if after_setup:
+        lines.append(after_setup)
 
     def rs(loc):
         s = "r"
